@@ -3,11 +3,14 @@
 //! `VERIF-REPORT` line.
 use vcommon::{Args, Report};
 
+mod c17;
+mod c18;
 mod c19;
 mod c20;
 mod c21;
 mod c22;
 mod c23;
+mod c24;
 mod c25;
 mod c26;
 mod c27;
@@ -15,6 +18,7 @@ mod c29;
 mod c30;
 mod c32;
 mod c33;
+mod c34;
 mod c35;
 mod c36;
 mod c37;
@@ -30,11 +34,14 @@ fn main() {
     let which = args.positional.first().cloned().unwrap_or_default();
     let mut rep = Report::new(&which);
     match which.as_str() {
+        "C17" => c17::run(&args, &mut rep),
+        "C18" => c18::run(&args, &mut rep),
         "C19" => c19::run(&args, &mut rep),
         "C20" => c20::run(&args, &mut rep),
         "C21" => c21::run(&args, &mut rep),
         "C22" => c22::run(&args, &mut rep),
         "C23" => c23::run(&args, &mut rep),
+        "C24" => c24::run(&args, &mut rep),
         "C25" => c25::run(&args, &mut rep),
         "C26" => c26::run(&args, &mut rep),
         "C27" => c27::run(&args, &mut rep),
@@ -42,6 +49,7 @@ fn main() {
         "C30" => c30::run(&args, &mut rep),
         "C32" => c32::run(&args, &mut rep),
         "C33" => c33::run(&args, &mut rep),
+        "C34" => c34::run(&args, &mut rep),
         "C35" => c35::run(&args, &mut rep),
         "C36" => c36::run(&args, &mut rep),
         "C37" => c37::run(&args, &mut rep),
